@@ -1,0 +1,34 @@
+//! Verification hooks. Compiled only with `--cfg saito_verif`; the normal build never sees this
+//! module. Nothing here changes behaviour unless a harness installs a budget.
+
+use std::cell::Cell;
+
+thread_local! {
+    static VALIDATE_STEP_BUDGET: Cell<u64> = Cell::new(0);
+    static VALIDATE_STEPS: Cell<u64> = Cell::new(0);
+}
+
+/// Maximum number of wind/unwind dispatches one `Blockchain::validate` call may perform on this
+/// thread before it panics with a fixed message (0 = unlimited).
+pub fn set_validate_step_budget(budget: u64) {
+    VALIDATE_STEP_BUDGET.with(|b| b.set(budget));
+}
+
+pub fn validate_steps_used() -> u64 {
+    VALIDATE_STEPS.with(|s| s.get())
+}
+
+pub fn validate_begin() {
+    VALIDATE_STEPS.with(|s| s.set(0));
+}
+
+pub fn validate_step() {
+    let used = VALIDATE_STEPS.with(|s| {
+        s.set(s.get() + 1);
+        s.get()
+    });
+    let budget = VALIDATE_STEP_BUDGET.with(|b| b.get());
+    if budget != 0 && used > budget {
+        panic!("saito_verif: Blockchain::validate exceeded its step budget");
+    }
+}
